@@ -1306,7 +1306,7 @@ def disp9(ctx) -> List[Ob]:
     from .ctrl import _guard_conditions as _gc9
 
     for c_ in A.walk_no_nested(mk.node):
-        if isinstance(c_, ast.Call) and (A.dotted(c_.func) or "") == "object.__setattr__" and len(c_.args) == 3 and isinstance(c_.args[1], ast.Constant):
+        if isinstance(c_, ast.Call) and (A.dotted(c_.func) or "") == "object.__setattr__" and len(c_.args) == 3 and isinstance(c_.args[1], ast.Constant) and c_.args[1].value in ("parent_region", "region"):
             offending = []
             for t_, p_ in _gc9(mk.node, c_):
                 te_ = ast.parse(t_, mode="eval").body
